@@ -4,13 +4,15 @@ From Core Require Import Base Kron Op ZIInst C08_Diag C08_Rules.
 Import ListNotations.
 (* DVecT: an integral vector observed under a loose Auto tolerance: either the exact rule ran or the stochastic
    estimator happened to return integers (zero operators, empty diagonals) *)
-Inductive dobs := DErr (e : derr) | DVec (l : list zi) | DVecT (l : list zi) | DOther.
+Inductive dobs := DErr (e : derr) | DVec (l : list zi) | DVecT (l : list zi) | DErrT (e : derr) | DOther.
+(* DErrT: an error observed under a loose Auto tolerance. The model stops at the first stochastic part (DStoch) whereas the
+   code goes on with the estimate and may hit a later refusal: both are outside this property (C17), accepted here *)
 Inductive tobs := TErr (e : derr) | TVal (x : zi) | TOther.
 Definition zl_eqb (a b : list zi) : bool :=
   Nat.eqb (length a) (length b) && forallb (fun p => zi_eqb (fst p) (snd p)) (combine a b).
 Definition dmatch (r : derr + list zi) (o : dobs) : bool :=
   match r, o with inl a, DErr b => derr_eqb a b | inr l, DVec l' => zl_eqb l l' | inr l, DVecT l' => zl_eqb l l'
-  | inl DStoch, DVecT _ => true | _, _ => false end.
+  | inl DStoch, DVecT _ => true | inl DStoch, DErrT _ => true | inl a, DErrT b => derr_eqb a b | _, _ => false end.
 Definition tmatch (r : derr + zi) (o : tobs) : bool :=
   match r, o with inl a, TErr b => derr_eqb a b | inr x, TVal y => zi_eqb x y | _, _ => false end.
 Definition BSZ : nat := 100.
